@@ -3,6 +3,7 @@
 From Coq Require Import List Arith Bool.
 From M Require Import Base Flat Hsm HsmSpec.
 From P Require Import HsmForest HsmResolve HsmOffer MonadP CrashGen HsmExec.
+From P Require HsmIff.
 Import ListNotations.
 
 (* ---------- transition resolution ---------- *)
@@ -112,6 +113,25 @@ Print Assumptions C03_offers.
 Theorem C03_innermost_first : forall f, nonincr (map (@length nat) (resolve_order f)).
 Proof. exact resolve_order_nonincr. Qed.
 Print Assumptions C03_innermost_first.
+
+(* ---------- the result of the whole scope recursion (_trigger_event_nested over all regions) ---------- *)
+(* With deterministic, non-raising callbacks, whenever the trigger returns normally (no internal
+   error routed to handlers): it returns True iff SOME active state - in whichever region, on
+   whichever level, for a transition declared globally or inside any enclosing state definition -
+   has a transition of the event with a registered destination whose checks pass; hence False
+   means that every such candidate of every active (scope, source) pair was blocked by its
+   conditions: no active region or ancestor is left out of the offer. *)
+Theorem C03_result_iff :
+  forall (hm : hmachine) (ev : env) (c : ctx) (e : event) (p : nat) (f : forest) tr f' (b : bool),
+    (forall cb q, r_raise (ev cb q) = None) -> (forall cb p q, ev cb p = ev cb q) ->
+    uniq f = true ->
+    trigger_event hm ev c e p f = (tr, f', inr b) ->
+    Forall (fun it => it_slot it <> SOnException) tr ->
+    (b = true <->
+     exists sc q ts t, lookup (scope_events hm sc) e = Some ts /\ q <> [] /\ active f (sc ++ q) = true /\
+                       In t (cands ts q) /\ hdest_ok hm sc t = true /\ HsmIff.tpass ev t = true).
+Proof. intros hm ev c e p f tr f' b NR DET. exact (HsmIff.trigger_iff_avail hm ev c e NR DET p f tr f' b). Qed.
+Print Assumptions C03_result_iff.
 
 (* ---------- the same event in two scopes (KF-C03-1) ---------- *)
 (* An ancestor's transition declared inside a state definition wins over its descendant's
